@@ -19,6 +19,8 @@ pub fn panic_signature(msg: &str) -> String {
         None => (msg, ""),
     };
     let loc = loc.rsplit_once("/src/").map(|x| x.1).unwrap_or(loc);
+    // (file only: line numbers move with every unrelated edit of that file)
+    let loc = loc.split(':').next().unwrap_or(loc);
     let flat: String = text.split_whitespace().collect::<Vec<_>>().join(" ");
     let words: String = flat.chars().filter(|c| !c.is_ascii_digit()).take(60).collect();
     format!("{}|{}", loc, words.trim())
